@@ -328,6 +328,8 @@ class JsonSchemaGenerator:
             value = self.generate_for_field(field, options=options)
             if value is None:
                 continue
+            # the key of parser.fields is lower-cased for case-insensitive fields: publish the real (output) name
+            name = field.name
             properties[name] = value
             if field.dependencies:
                 # a JSON array (field.dependencies is a set)
